@@ -33,6 +33,8 @@ SED = [  # (id, property, file, regex, replacement, what)
  ('M-C02-clock-after-handler', 'C02', 'des/src/runtime/mod.rs', r'SimTime::set_now\(time\);\n\n        event\.handle\(self\);', 'event.handle(self);\n        SimTime::set_now(time);', 'clock written after the handler ran'),
  ('M-C17-typed-no-test', 'C17', 'des-net-utils/src/props/mod.rs', r'pub fn typed<T: PropType>\(self\) -> Result<Prop<T, false>, Error> \{\n        if self\.is::<T>\(\) \{', 'pub fn typed<T: PropType>(self) -> Result<Prop<T, false>, Error> {\n        if true {', 'typed access without the type test'),
  ('M-C19-edge-start-end-swapped', 'C19', 'des/src/net/topology.rs', r'let raw = EdgeRaw \{\n                        dst,\n                        data: \(\),\n                        start: gate,\n                        end,\n                    \};', 'let raw = EdgeRaw {\n                        dst,\n                        data: (),\n                        start: end.clone(),\n                        end,\n                    };', 'edge labelled with the end gate twice'),
+ ('M-C06-no-yield', 'C06', 'des/src/net/runtime/unwind.rs', r'tokio::task::yield_now\(\)\.await;', '', 'harness future ends without yielding'),
+ ('M-C06-wakeup-unharnessed', 'C06', 'des/src/net/runtime/events.rs', r'Harness::new\(&self\.ctx\)\.exec\(\|\| \{\}\)\.catch\(\)\?;\n            self\.processing\.borrow_mut\(\)\.incoming_downstream\(\);', 'self.processing.borrow_mut().incoming_downstream();', 'async wake-ups no longer poll the module runtime'),
  ('M-C18-new-unwrap', 'C18', 'des-net-utils/src/ndl/mod.rs', r'\.ok_or_else\(\|\| ErrorKind::UnknownModule\(def\.entry\.clone\(\)\)\.into\(\)\)', '.ok_or_else(|| -> Error { ErrorKind::UnknownModule(def.entry.clone()).into() }).map(|v| { let _ = links.get("").unwrap(); v })', 'a new unwrap in transform'),
 ]
 
